@@ -1701,9 +1701,11 @@ class SysRun(NodeRun):
         return [self.d2req.get(id(it[1][0]), -1) for it in self.queue if getattr(it[0], "__name__", "") == "_deliver"]
 
     def apply(self, tok):
-        parts = tok.split(":")
+        parts = tok.split(":") if tok is not None else ["-digest-only-"]
         node = self.node
-        if parts[0] in ("a", "n", "u", "s", "l"):
+        if tok is None:
+            pass
+        elif parts[0] in ("a", "n", "u", "s", "l"):
             NodeRun.apply(self, tok)
             if parts[0] == "u":
                 node.segment_size = self.segsize
@@ -2297,3 +2299,287 @@ def finder_family(ctx, nrandom):
         params, toks, digs, info = gen_finder_script(ctx.rng)
         one(params, toks, digs, info)
     return cases, impl, lines
+
+
+# ----------------------------------------------------------------------------- composed system with the real ShareFinder
+
+class SysFRun(SysRun):
+    """SysRun whose DownloadNode uses the real ShareFinder over scripted servers (tokens of the `sysf` line)."""
+
+    def __init__(self, k, numsegs, badsegs, filesize, segsize, guess, maxout, servers):
+        SysRun.__init__(self, k, numsegs, badsegs, filesize, segsize, guess)
+        from twisted.internet import defer
+        from allmydata.immutable.downloader import finder as fm
+        self.fm = fm
+        self.fcalls = []
+        self.freqs = {}
+        self.req_of_server = {}
+        self.timer_list = []
+        self.next_share = 0
+        run = self
+
+        class _SS:
+            def __init__(self, num):
+                self.num = num
+
+            def get_buckets(self, si):
+                q = len(run.freqs)
+                d = defer.Deferred()
+                run.freqs[q] = (d, self.num)
+                run.req_of_server[self.num] = q
+                run.fcalls.append("send=%d.%d" % (self.num, q))
+                return d
+
+        class _Server:
+            def __init__(self, num):
+                self.num = num
+                self.ss = _SS(num)
+
+            def get_name(self):
+                return b"srv%d" % self.num
+
+            def get_storage_server(self):
+                return self.ss
+
+        class _Broker:
+            def get_servers_for_psi(self, si):
+                return [_Server(n) for n in servers]
+
+        class _Timer:
+            def __init__(self, f, a):
+                self.f, self.a, self.active = f, a, True
+
+            def cancel(self):
+                self.active = False
+
+        class _Reactor:
+            def callLater(self, t, f, *a):
+                h = _Timer(f, a)
+                run.timer_list.append(h)
+                return h
+        node = self.node
+
+        def ev(f, *a, **kw):
+            if getattr(f, "__self__", None) is node and f.__name__ == "got_shares":
+                shs = a[0]
+                run.fcalls.append("shares=%d:%s" % (shs[0]._server.num, "+".join(str(x._shnum) for x in shs)))
+            elif getattr(f, "__self__", None) is node and f.__name__ == "no_more_shares":
+                run.fcalls.append("nomore")
+            run.queue.append((f, a, kw))
+        self._saved_fm = (fm.eventually, fm.reactor)
+        fm.eventually = ev
+        fm.reactor = _Reactor()
+        self.finder = fm.ShareFinder(_Broker(), node._verifycap, node, node._download_status, None,
+                                     max_outstanding_requests=maxout)
+
+        def mk(shnum, bucket, server, rtt):
+            sid = run.next_share
+            run.next_share += 1
+            return run.share(sid, shnum, server.num, server.num)
+        self.finder._create_share = mk
+        orig_hungry = self.finder.hungry
+
+        def hungry():
+            run.calls.append("%d:want" % run.cur)
+            return orig_hungry()
+        self.finder.hungry = hungry
+        node._sharefinder = self.finder
+
+    def close(self):
+        self.fm.eventually, self.fm.reactor = self._saved_fm
+        SysRun.close(self)
+
+    def _freq(self, token):
+        return self.req_of_server.get(token.server.num, -1)
+
+    def mail_items(self):
+        return [it for it in self.queue if getattr(it[0], "__self__", None) is self.node and
+                it[0].__name__ in ("got_shares", "no_more_shares")]
+
+    def apply(self, tok):
+        del self.fcalls[:]
+        p = tok.split(":")
+        if p[0] in ("FL", "FR", "FE", "FO", "M"):
+            del self.calls[:]
+            act = self.node._active_segment
+            self.cur = act.gen if act is not None else -1
+            try:
+                if p[0] == "FL":
+                    for i, it in enumerate(self.queue):
+                        if getattr(it[0], "__self__", None) is self.finder:
+                            del self.queue[i]
+                            it[0](*it[1], **it[2])
+                            break
+                elif p[0] == "FR":
+                    d, srv = self.freqs[int(p[1])]
+                    d.callback({} if p[2] == "-" else {int(x): ("bucket", srv) for x in p[2].split(",")})
+                elif p[0] == "FE":
+                    d, srv = self.freqs[int(p[1])]
+                    d.errback(RuntimeError("dyhb failed"))
+                elif p[0] == "FO":
+                    for h in self.timer_list:
+                        if h.active and self._freq(h.a[0]) == int(p[1]):
+                            h.active = False
+                            h.f(*h.a)
+                            break
+                else:
+                    ms = self.mail_items()
+                    if ms:
+                        for i, it in enumerate(self.queue):
+                            if it is ms[0]:
+                                del self.queue[i]
+                                break
+                        ms[0][0](*ms[0][1], **ms[0][2])
+            except Exception as e:
+                self.calls.append("exc=%s" % type(e).__name__)
+                self.unhandled.append("%s in %s" % (type(e).__name__, tok))
+            self._drain_delivers()
+            base = SysRun.apply(self, None)
+        else:
+            base = SysRun.apply(self, tok)
+        f = self.finder
+        fq = sum(1 for it in self.queue if getattr(it[0], "__self__", None) is f)
+        started = getattr(f, "_servers", "unstarted")
+        return "|".join([base, ",".join(self.fcalls) or "-",
+                         "%d.%d.%d" % (1 if f.running else 0, 1 if f._hungry else 0, 1 if started is None else 0),
+                         show_ids(sorted(self._freq(t) for t in f.pending_requests), sort=False),
+                         show_ids(sorted(self._freq(t) for t in f.overdue_requests), sort=False),
+                         show_ids(sorted(self._freq(t) for t in f.overdue_timers), sort=False), str(fq),
+                         str(len(self.mail_items()))])
+
+
+def gen_sysf_script(rng, max_events=260):
+    """seeded environment of the whole stack above the shares: reads, node, fetchers and the real ShareFinder over
+    scripted servers (answers with / without shares, failures, overdue timers), mail and deliveries in any order."""
+    k = rng.choice([1, 1, 2])
+    segsize = rng.choice([8, 16])
+    numsegs = rng.choice([1, 2, 3])
+    filesize = segsize * numsegs - rng.choice([0, 0, 1])
+    guess = rng.choice([segsize, segsize, 5, 1000])
+    badsegs = sorted(x for x in range(numsegs) if rng.random() < 0.1)
+    nsrv = rng.choice([0, 1, 2, 3, 4])
+    servers = list(range(nsrv))
+    rng.shuffle(servers)
+    maxout = rng.choice([1, 2, 10])
+    holdings = {}
+    used = set()
+    for sv in servers:
+        r = rng.random()
+        if r < 0.2:
+            holdings[sv] = "error"
+        elif r < 0.35:
+            holdings[sv] = []
+        else:
+            nums = [n for n in rng.sample(range(3), rng.choice([1, 1, 2])) if (n, sv) not in used]
+            holdings[sv] = sorted(nums)
+    pgood = rng.choice([0.5, 0.9, 1.0])
+    R = SysFRun(k, numsegs, badsegs, filesize, segsize, guess, maxout, servers)
+    toks, digs = [], []
+
+    def do(tok):
+        toks.append(tok)
+        digs.append(R.apply(tok))
+    try:
+        nreads = rng.choice([1, 2, 2, 3])
+        started = 0
+        answered = set()
+        ueb = False
+        while len(toks) < max_events:
+            act = R.node._active_segment
+            acts = []
+            if started < nreads:
+                acts += ["read"] * 2
+            pend = R.pending_delivers()
+            if pend:
+                acts += ["deliver"] * 4
+            loops = [it for it in R.queue if getattr(it[0], "__name__", "") == "loop" and
+                     getattr(it[0], "__self__", None) is not R.finder]
+            if loops:
+                acts += ["loop"] * 4
+            if any(getattr(it[0], "__self__", None) is R.finder for it in R.queue):
+                acts += ["fturn"] * 4
+            if R.mail_items():
+                acts += ["mail"] * 4
+            openq = [q for q in R.freqs if q not in answered]
+            if openq:
+                acts += ["fanswer"] * 3
+                timers = [q for q in openq if any(h.active and R._freq(h.a[0]) == q for h in R.timer_list)]
+                if timers and rng.random() < 0.3:
+                    acts += ["foverdue"]
+            turns = [rid for rid in R.rids if any(getattr(it[0], "__self__", None) is R.segs[rid] for it in R.queue)]
+            if turns:
+                acts += ["turn"] * 3
+            live = [rid for rid in R.rids if rid not in R.results]
+            paused = [rid for rid in live if not R.segs[rid]._hungry]
+            if paused:
+                acts += ["resume"] * 3
+            elif live and rng.random() < 0.08:
+                acts += ["pause"]
+            if live and rng.random() < 0.02:
+                acts += ["stop"]
+            outst = []
+            if act is not None and act._running:
+                outst = [sh.sid for sh in set(x for ss in act._shares_from_server.values() for x in ss)]
+                if outst:
+                    acts += ["term"] * 3
+            if not acts:
+                break
+            a = rng.choice(acts)
+            if a == "read":
+                off = rng.randrange(0, filesize)
+                do("R:%d:%d:%d" % (started, off, rng.randrange(1, filesize - off + 1)))
+                started += 1
+            elif a == "deliver":
+                do("d:%d" % rng.choice(pend))
+            elif a == "loop":
+                do("l:%d" % loops[0][0].__self__.gen)
+            elif a == "fturn":
+                do("FL")
+            elif a == "mail":
+                do("M")
+            elif a == "fanswer":
+                q = rng.choice(openq)
+                answered.add(q)
+                h = holdings[R.freqs[q][1]]
+                if h == "error":
+                    do("FE:%d" % q)
+                else:
+                    do("FR:%d:%s" % (q, ",".join(map(str, h)) or "-"))
+            elif a == "foverdue":
+                do("FO:%d" % rng.choice(timers))
+            elif a == "turn":
+                do("T:%d" % rng.choice(turns))
+            elif a == "resume":
+                do("U:%d" % rng.choice(paused))
+            elif a == "pause":
+                do("P:%d" % rng.choice([r for r in live if R.segs[r]._hungry]))
+            elif a == "stop":
+                do("X:%d" % rng.choice(live))
+            else:
+                sid = rng.choice(outst)
+                st = "C" if rng.random() < pgood else rng.choice(["X", "D"])
+                if st == "C" and not ueb:
+                    ueb = True
+                    do("u")
+                do("s:%d:%d:%s" % (act.gen, sid, st))
+        info = {"quiescent": not R.queue and not R.finder.pending_requests,
+                "unhandled": list(R.unhandled),
+                "reads": {rid: {"result": R.results.get(rid), "hungry": bool(R.segs[rid]._hungry)} for rid in R.rids},
+                "outstanding": 0 if R.node._active_segment is None or not R.node._active_segment._running else
+                sum(len(ss) for ss in R.node._active_segment._shares_from_server.values())}
+    finally:
+        R.close()
+    return (k, numsegs, badsegs, filesize, segsize, guess, maxout, servers), toks, digs, info
+
+
+def replay_sysf_script(params, toks):
+    R = SysFRun(*params)
+    try:
+        return [R.apply(t) for t in toks]
+    finally:
+        R.close()
+
+
+def sysf_line(p, toks):
+    return "sysf %d %d %s %d %d %d %d %s %s" % (p[0], p[1], ",".join(map(str, p[2])) or "-", p[3], p[4], p[5], p[6],
+                                               ",".join(map(str, p[7])) or "-", " ".join(toks))
